@@ -138,7 +138,21 @@ func c18client(intervalS int64, mode0 string, k int, delta time.Duration) func()
 		vrt.Quiet(true)
 		interval := secs(intervalS)
 		// the server answers a stream close with its own and closes; everything else is driven by the harness
-		s := newSess(sessOpts{keepalive: intervalS, served: func(sc *srvConn, r *negRec) { sc.idleSession(r) }})
+		so := sessOpts{keepalive: intervalS, served: func(sc *srvConn, r *negRec) { sc.idleSession(r) }}
+		if mode0 == "pingfail-after-failed-resume" {
+			so.serverCfg = func(k int, c *negCfg) {
+				if k == 1 {
+					inner := c.pick
+					c.pick = func(step string, alts ...string) string {
+						if step == "auth" {
+							return "close"
+						}
+						return inner(step, alts...)
+					}
+				}
+			}
+		}
+		s := newSess(so)
 		if s.cl == nil {
 			return
 		}
@@ -207,6 +221,59 @@ func c18client(intervalS int64, mode0 string, k int, delta time.Duration) func()
 			vrt.Sleep(3 * interval)
 			vrt.WaitIdle()
 			return // the verdict function reports a panic
+		}
+		if mode == "pingfail-after-failed-resume" {
+			// session 1 is lost; a first Resume is cut by the server in the middle of the negotiation (the client closes
+			// that attempt itself); a second Resume succeeds. In that session the first keepalive cannot be written:
+			// the connection must be closed and the loss reported like any other.
+			conn.close()
+			vrt.WaitIdle()
+			if err := s.cl.Resume(); err == nil {
+				vrt.Fail("C18|harness|attempt-did-not-fail", "")
+				return
+			}
+			vrt.WaitIdle()
+			if err := s.cl.Resume(); err != nil {
+				vrt.Fail("C18|harness|reconnect", "%v", err)
+				return
+			}
+			vrt.WaitIdle()
+			c2 := s.conn(2)
+			if c2 == nil {
+				vrt.Fail("C18|harness|no-third-connection", "")
+				return
+			}
+			nErr0, nDisc0 := len(s.errs), 0
+			for _, ev := range s.events {
+				if ev.State.state == StateDisconnected {
+					nDisc0++
+				}
+			}
+			failing := false
+			c2.raw.Peer().WriteFault = func(c *vnet.Conn, p []byte) (int, error) {
+				if string(p) == "\n" || failing {
+					failing = true
+					return 0, errors.New("write: broken pipe")
+				}
+				return -1, nil
+			}
+			vrt.Sleep(interval + 40*time.Second)
+			vrt.WaitIdle()
+			vrt.Quiet(true)
+			cfg := fmt.Sprintf("interval=%s mode=%s", interval, mode)
+			nDisc := 0
+			for _, ev := range s.events {
+				if ev.State.state == StateDisconnected {
+					nDisc++
+				}
+			}
+			if !c2.raw.PeerClosed() {
+				vrt.Fail("C18|dead-connection-not-closed|after-failed-resume", "%s: the keepalive could not be written but the connection was never closed", cfg)
+			}
+			if nDisc-nDisc0 != 1 || len(s.errs)-nErr0 != 1 {
+				vrt.Fail("C18|loss-not-reported-once|after-failed-resume", "%s: after the failed keepalive: %d error callbacks, %d Disconnected events", cfg, len(s.errs)-nErr0, nDisc-nDisc0)
+			}
+			return
 		}
 		if mode == "pingfail-twice" {
 			// session 1: the first keepalive cannot be written; the keepalive closes the connection, which (the server
@@ -474,6 +541,7 @@ func TestVerifC18(t *testing.T) {
 		for _, d := range []time.Duration{-time.Millisecond, 0} {
 			scs = append(scs, hx.Scenario{Name: fmt.Sprintf("client/interval=%ds/drop-refused-resume%+d", ivs, d), Opt: vrt.Options{Bound: c18rb + 1, Horizon: 100000, TouchOn: []string{"conn"}}, Body: c18client(ivs, "drop-refused-resume", 1, d), Verdict: c18verdict})
 		}
+		scs = append(scs, hx.Scenario{Name: fmt.Sprintf("client/interval=%ds/pingfail-after-failed-resume", ivs), Opt: vrt.Options{Bound: 1, Horizon: 100000}, Body: c18client(ivs, "pingfail-after-failed-resume", 1, 0), Verdict: c18verdict})
 		if ivs > 0 {
 			scs = append(scs, hx.Scenario{Name: fmt.Sprintf("client/interval=%ds/pingfail-twice", ivs), Opt: vrt.Options{Bound: 1, Horizon: 100000}, Body: c18client(ivs, "pingfail-twice", 1, 0), Verdict: c18verdict})
 		}
